@@ -35,6 +35,19 @@ Ltac fin :=
   | H : False |- _ => destruct H
   end; try congruence; try discriminate.
 
+Ltac solve_k k :=
+  exists k; split; [simpl; tauto | split; [reflexivity | let Hk := fresh "Hk" in intro Hk; discriminate Hk]].
+Ltac solve_pk :=
+  exists CbPublickey; split; [simpl; tauto | split; [reflexivity |
+    intros _; do 6 eexists; repeat split; eauto]].
+Ltac fin2 :=
+  repeat match goal with H : negb _ = false |- _ => apply negb_false_iff in H end; subst;
+  split; [ split; [reflexivity|];
+           first [ solve_k CbNone | solve_k CbPassword | solve_k CbInteractive
+                 | solve_k CbInteractiveResp | solve_k CbGssMic | solve_k CbGssKeyex | solve_pk ]
+         | split; [ let Hm := fresh "Hm" in intros ? ? ? Hm; first [discriminate Hm | inversion Hm; reflexivity]
+                  | split; [simpl; tauto | reflexivity] ] ].
+
 Lemma success_needs_approval :
   forall sig_ok sid st m e st' outs,
     auth_step sig_ok sid st m e = (st', outs) ->
@@ -46,5 +59,111 @@ Proof.
   intros sig_ok sid st m e st' outs H Hs.
   destruct st as [act au us fl gs ex]. destruct e as [res g ko bits mo tk mi kc bn].
   unf H. unfold approves. simpl in *.
-  brk H; inversion H; subst; clear H; simpl in *; fin.
-Admitted.
+  brk H; inversion H; subst; clear H; simpl in *; fin; fin2.
+Qed.
+
+(* a key probe (no signature attached) never authenticates *)
+Lemma probe_never_auths :
+  forall sig_ok sid st u s alg kb sg e st' outs,
+    auth_step sig_ok sid st (Msg50 u s (BPublickey false alg kb sg)) e = (st', outs) ->
+    a_authed st' = a_authed st /\ ~ In OSuccess outs.
+Proof.
+  intros sig_ok sid st u s alg kb sg e st' outs H.
+  destruct st as [act au us fl gs ex]. destruct e as [res g ko bits mo tk mi kc bn].
+  unf H. simpl in *.
+  brk H; inversion H; subst; clear H; simpl; split; try reflexivity; intros Hin; fin.
+Qed.
+
+(* the authenticated flag is never cleared *)
+Lemma authed_mono :
+  forall sig_ok sid st m e st' outs,
+    auth_step sig_ok sid st m e = (st', outs) -> a_authed st = true -> a_authed st' = true.
+Proof.
+  intros sig_ok sid st m e st' outs H Ha.
+  destruct (a_authed st') eqn:E; [reflexivity|].
+  destruct st as [act au us fl gs ex]. destruct e as [res g ko bits mo tk mi kc bn].
+  simpl in Ha. subst au. unf H. simpl in *.
+  brk H; inversion H; subst; clear H; simpl in *; congruence.
+Qed.
+
+(* ---- the signed blob determines all five fields ---------------------------- *)
+Lemma blob_fields_wf sid u s a k :
+  bytes_ok sid = true -> bytes_ok u = true -> bytes_ok s = true -> bytes_ok a = true ->
+  bytes_ok k = true -> forallb field_wf (blob_fields sid u s a k) = true.
+Proof.
+  intros H1 H2 H3 H4 H5. unfold blob_fields. cbn [forallb field_wf].
+  rewrite H1, H2, H3, H4, H5. reflexivity.
+Qed.
+
+Lemma blob_injective :
+  forall sid u s a k sid' u' s' a' k' b,
+    bytes_ok sid = true -> bytes_ok u = true -> bytes_ok s = true -> bytes_ok a = true ->
+    bytes_ok k = true ->
+    bytes_ok sid' = true -> bytes_ok u' = true -> bytes_ok s' = true -> bytes_ok a' = true ->
+    bytes_ok k' = true ->
+    session_blob sid u s a k = Ok b -> session_blob sid' u' s' a' k' = Ok b ->
+    sid = sid' /\ u = u' /\ s = s' /\ a = a' /\ k = k'.
+Proof.
+  intros sid u s a k sid' u' s' a' k' b H1 H2 H3 H4 H5 H1' H2' H3' H4' H5' E1 E2.
+  assert (E : blob_fields sid u s a k = blob_fields sid' u' s' a' k').
+  { apply (encode_injective _ _ b); try (apply blob_fields_wf; assumption); try assumption.
+    reflexivity. }
+  unfold blob_fields in E. inversion E. repeat split; reflexivity.
+Qed.
+
+Lemma cb_for_pk : forall u s sa alg kb sg k,
+  cb_for (Msg50 u s (BPublickey sa alg kb sg)) k = true -> k = CbPublickey.
+Proof. intros u s sa alg kb sg k H. destruct k; simpl in H; congruence. Qed.
+
+(* a signature made for other field values never authenticates *)
+Section Replay.
+Variable sig_ok : list Z -> list Z -> list Z -> bool.
+(* symbolic signature premise: under one key a signature verifies for at most one message *)
+Hypothesis sig_binds : forall k b1 b2 sg, sig_ok k b1 sg = true -> sig_ok k b2 sg = true -> b1 = b2.
+
+Lemma replay_never_auths :
+  forall sid1 u1 s1 a1 sid2 u2 s2 a2 bits kb sg b1 st e st' outs,
+    bytes_ok sid1 = true -> bytes_ok u1 = true -> bytes_ok s1 = true -> bytes_ok a1 = true ->
+    bytes_ok sid2 = true -> bytes_ok u2 = true -> bytes_ok s2 = true -> bytes_ok a2 = true ->
+    bytes_ok bits = true ->
+    session_blob sid1 u1 s1 a1 bits = Ok b1 -> sig_ok bits b1 sg = true ->
+    (sid1, u1, s1, a1) <> (sid2, u2, s2, a2) ->
+    e_bits e = bits -> a_authed st = false ->
+    auth_step sig_ok sid2 st (Msg50 u2 s2 (BPublickey true a2 kb sg)) e = (st', outs) ->
+    ~ In OSuccess outs /\ a_authed st' = false.
+Proof.
+  intros sid1 u1 s1 a1 sid2 u2 s2 a2 bits kb sg b1 st e st' outs
+         W1 W2 W3 W4 W5 W6 W7 W8 W9 Hb Hs Hne Hbits Hau H.
+  assert (C : In OSuccess outs \/ (a_authed st = false /\ a_authed st' = true) -> False).
+  { intros Hc. destruct (success_needs_approval _ _ _ _ _ _ _ H Hc) as [[_ [k [_ [Hk Hpk]]]] _].
+    apply cb_for_pk in Hk. destruct (Hpk Hk) as [u [s [alg [kb' [sg' [blob [Em [_ [Eb Ev]]]]]]]]].
+    inversion Em; subst. 
+    assert (b1 = blob) by (eapply sig_binds; eassumption). subst blob.
+    destruct (blob_injective _ _ _ _ _ _ _ _ _ _ _ W1 W2 W3 W4 W9 W5 W6 W7 W8 W9 Hb Eb)
+      as [? [? [? [? ?]]]]. subst. apply Hne. reflexivity. }
+  split.
+  - intros Hin. apply C. left. exact Hin.
+  - destruct (a_authed st') eqn:E; [|reflexivity]. exfalso. apply C. right. split; [exact Hau|reflexivity].
+Qed.
+End Replay.
+
+(* ---- whole connections ------------------------------------------------------- *)
+Lemma run_authed_needs_approval :
+  forall sig_ok sid steps st st' outs,
+    run sig_ok sid st steps = (st', outs) ->
+    a_authed st = false -> a_authed st' = true ->
+    In OSuccess outs /\ exists k u, In (OCb k u RSuccess) outs.
+Proof.
+  intros sig_ok sid steps. induction steps as [|[m e] r IH]; intros st st' outs H Hf Ht.
+  - simpl in H. inversion H; subst. congruence.
+  - simpl in H. destruct (auth_step sig_ok sid st m e) as [st1 o1] eqn:E1.
+    destruct (run sig_ok sid st1 r) as [st2 o2] eqn:E2. inversion H; subst; clear H.
+    destruct (a_authed st1) eqn:Ea.
+    + destruct (success_needs_approval _ _ _ _ _ _ _ E1 (or_intror (conj Hf Ea)))
+        as [[_ [k [Hin _]]] [_ [Hs _]]].
+      split; [apply in_or_app; left; exact Hs|].
+      exists k, (a_user st1). apply in_or_app. left. exact Hin.
+    + destruct (IH _ _ _ E2 Ea Ht) as [Hs [k [u Hin]]].
+      split; [apply in_or_app; right; exact Hs|].
+      exists k, u. apply in_or_app. right. exact Hin.
+Qed.
